@@ -10,7 +10,10 @@ RULE = (
     "distinct whenever the instance has >= k feasible starts; (policy) AttentionModelPolicy forward with "
     "multistart_greedy / multistart_sampling / sampling(num_samples) and select_best on/off - every returned row r is "
     "checked against instance r mod B with the independent objective, and select_best's output is compared with the "
-    "candidates tapped inside the same call (max reward, exactly that rollout's actions and log-likelihood). "
+    "candidates tapped inside the same call (max reward, exactly that rollout's actions and log-likelihood); (strategy) the "
+    "DecodingStrategy API itself driven with random logits on envs whose reward is read from the final state (FLP, MCP, mTSP "
+    "min-max, JSSP, FJSP, SMTWTP): returned rewards must equal the reward of replaying the returned actions on fresh copies "
+    "of the instance, and the max over the instance's own rollouts under select_best. "
     "One evaluation per checked row; non-trivial = distinct (configuration, instance, k)"
 )
 ASSUMPTIONS = [
@@ -18,7 +21,7 @@ ASSUMPTIONS = [
     "best-of-k ties (equal reward within 1e-4) accept any of the tied rollouts",
     "POMO/SymNCO regrouping of per-rollout values by factor is C16's concern",
 ]
-REQUIRED_COUNTERS = ["c12_batchify_calls", "c12_unbatchify_calls", "c12_gather_calls", "c12_start_rows", "c12_rollout_rows", "c12_select_best_taps", "c12_best_rows", "c12_start_taps"]
+REQUIRED_COUNTERS = ["c12_batchify_calls", "c12_unbatchify_calls", "c12_gather_calls", "c12_start_rows", "c12_rollout_rows", "c12_select_best_taps", "c12_best_rows", "c12_start_taps", "c12_strategy_calls", "c12_state_reward_rows"]
 MIN_NONTRIVIAL = {"quick": 3000, "thorough": 30000}
 WORKERS = {"quick": 14, "thorough": 16}
 BUDGET_S = {"quick": 500, "thorough": 3000}
@@ -77,13 +80,26 @@ def cases(tier, seed):
                             k = n // 2
                         for sb in (False, True):
                             out.append(dict(kind="policy", cfg=cfg, B=B, k=k, decode=decode, select_best=sb, s=rnd.randrange(10**6)))
+    # the DecodingStrategy API on envs whose reward is read from the final state
+    st_cfgs = [dict(env="flp", n=7, k=3), dict(env="mcp", n=6, items=10, k=3), dict(env="mtsp", n=6, cost_type="minmax", agents=(2, 3)),
+               dict(env="jssp", jobs=3, mas=3, one2one=True, mask_no_ops=True, n=9), dict(env="fjsp", jobs=3, mas=2, min_ops=1, max_ops=3, mask_no_ops=True, n=9), dict(env="smtwtp", n=6)]
+    for cfg in st_cfgs:
+        for B in ((1, 3) if q else (1, 2, 3, 5)):
+            for k in ((2, 4) if q else (2, 3, 4, 6)):
+                for sb in (False, True):
+                    decs = ["sampling"] + (["multistart_sampling"] if cfg["env"] in ("flp", "mcp", "mtsp") else [])
+                    for dec in decs:
+                        if dec.startswith("multistart") and cfg["env"] == "mtsp" and k > cfg["n"] - 1:
+                            continue
+                        for r in range(1 if q else 3):
+                            out.append(dict(kind="strategy", cfg=cfg, B=B, k=k, decode=dec, select_best=sb, s=rnd.randrange(10**6)))
     return out
 
 
 def run_case(ctx, case):
     from vlib import c12impl
 
-    {"ops": c12impl.ops_case, "starts": c12impl.starts_case, "policy": c12impl.policy_case}[case["kind"]](ctx, case)
+    {"ops": c12impl.ops_case, "starts": c12impl.starts_case, "policy": c12impl.policy_case, "strategy": c12impl.strategy_case}[case["kind"]](ctx, case)
 
 
 MANIFEST = {
